@@ -166,6 +166,7 @@ struct Cx<'a, 'tcx> {
     tcx: TyCtxt<'tcx>,
     body: &'a Body<'tcx>,
     env: TypingEnv<'tcx>,
+    seen_adts: &'a std::cell::RefCell<Vec<DefId>>,
 }
 
 impl<'a, 'tcx> Cx<'a, 'tcx> {
@@ -403,6 +404,7 @@ impl<'a, 'tcx> Cx<'a, 'tcx> {
                 let pty = p.ty(&self.body.local_decls, tcx).ty;
                 if let ty::Adt(adt, _) = pty.kind() {
                     o.put("adt", J::S(qname(tcx, adt.did())));
+                    self.seen_adts.borrow_mut().push(adt.did());
                 }
             }
             Rvalue::Aggregate(kind, ops) => {
@@ -473,11 +475,16 @@ fn wanted(tcx: TyCtxt<'_>, def: LocalDefId) -> bool {
     )
 }
 
-fn body_facts<'tcx>(tcx: TyCtxt<'tcx>, def: LocalDefId, body: &Body<'tcx>) -> Option<J> {
+fn body_facts<'tcx>(
+    tcx: TyCtxt<'tcx>,
+    def: LocalDefId,
+    body: &Body<'tcx>,
+    seen_adts: &std::cell::RefCell<Vec<DefId>>,
+) -> Option<J> {
     let kind = tcx.def_kind(def);
     let did = def.to_def_id();
     let env = TypingEnv::post_analysis(tcx, did);
-    let cx = Cx { tcx, body, env };
+    let cx = Cx { tcx, body, env, seen_adts };
 
     let mut o = J::obj();
     o.put("def", J::S(qname(tcx, did)));
@@ -863,11 +870,50 @@ fn extract(tcx: TyCtxt<'_>, dir: &str) {
     }
     // Phase 2: emit facts
     let mut bodies = Vec::new();
+    let seen_adts = std::cell::RefCell::new(Vec::new());
     for (def, body) in cloned.iter() {
-        if let Some(b) = body_facts(tcx, *def, body) {
+        if let Some(b) = body_facts(tcx, *def, body, &seen_adts) {
             bodies.push(b);
         }
     }
+    // enums of other crates that local code matches on: variant tables are needed by the
+    // DISPATCH / MIRROR rules
+    let mut ext = seen_adts.into_inner();
+    ext.sort_by_key(|d| (d.krate.as_u32(), d.index.as_u32()));
+    ext.dedup();
+    let mut ext_adts = Vec::new();
+    for did in ext {
+        if did.is_local() {
+            continue;
+        }
+        let adt = tcx.adt_def(did);
+        if !adt.is_enum() {
+            continue;
+        }
+        let mut o = J::obj();
+        o.put("q", J::S(qname(tcx, did)));
+        o.put("kind", J::s("Enum"));
+        o.put("ext", J::B(true));
+        let mut vs = Vec::new();
+        for v in adt.variants().iter() {
+            let mut vo = J::obj();
+            vo.put("n", J::S(v.name.to_string()));
+            let fs: Vec<J> = v
+                .fields
+                .iter()
+                .map(|f| {
+                    let mut fo = J::obj();
+                    fo.put("n", J::S(f.name.to_string()));
+                    fo
+                })
+                .collect();
+            vo.put("fields", J::A(fs));
+            vs.push(vo);
+        }
+        o.put("variants", J::A(vs));
+        ext_adts.push(o);
+    }
+    root.put("ext_adts", J::A(ext_adts));
     root.put("bodies", J::A(bodies));
     root.put("skipped", J::A(skipped));
 
